@@ -6,6 +6,9 @@ CONSTANTS
   Fams = {"G"}
   Lists = {"default"}
   DecSizeStored = FALSE
+  LineCap = "none"
+  LongOn = FALSE
+  HistOn = FALSE
   Known = {}
 INVARIANT Loop
 INVARIANT BodyExact
